@@ -232,9 +232,11 @@ Definition query_all_trust (km : keymap) (nblocks : nat) (q : rule) : origin :=
 Definition dedup_facts (l : list ofact) : list fact :=
   fold_left (fun acc of => if existsb (fact_eqb (snd of)) acc then acc else acc ++ [snd of]) l [].
 
+(* Authorizer::query returns one answer per distinct (origin, fact) pair of the result (the same
+   fact derived under two origin sets is listed twice); query_all keeps distinct facts *)
 Definition query (facts : list ofact) (t : token) (q : rule) : res (list fact) :=
   match query_rule orc facts (query_trust (token_keymap t) q) auth_id q with
-  | Ok l => Ok (dedup_facts l)
+  | Ok l => Ok (map snd l)
   | Err e => Err e
   end.
 
